@@ -4,6 +4,8 @@
 //! real driver code and records what happened.
 mod abs;
 mod c01;
+mod c16;
+mod c16_structs;
 mod c17;
 mod carriers;
 
@@ -22,6 +24,7 @@ const COMMANDS: &[(&str, &str, fn(&[String]) -> i32)] = &[
     ("c01", "<vectors.ndjson> <out.ndjson>", c01::cmd),
     ("c17-matrix", "<types.ndjson> <out.ndjson>", c17::cmd_matrix),
     ("c17-rollback", "<histories.ndjson> <out.ndjson>", c17::cmd_rollback),
+    ("c16", "<cases.ndjson> <out.ndjson>", c16::cmd),
 ];
 
 fn usage() {
